@@ -5,7 +5,8 @@ Code modelled (all under /repo/proxy/src/services/lunar-engine/streams):
   * `lunar-context/memory_state.go`  `memoryState.AtomicIncWindow`   (one critical section, `p.mutex`)
   * `resources/quota/fixed_strategy.go`
       `quota.Inc / quota.Allowed / quota.Dec`   (one critical section each, `q.mutex`)  ↦ `incLevel / allowedLevel / decLevel`
-      `fixedWindow.Inc / Allowed / Dec`         (walk up the parent chain)             ↦ `incChain / allowedChain / decChain`
+      `quota.refund`                            (one critical section, `q.mutex`)      ↦ `refundLevel`
+      `fixedWindow.Inc (incChain) / Allowed / Dec` (walk up the parent chain)          ↦ `incChain / allowedChain / decChain`
   * `processors/limiter/limiter_processor.go`   `Execute` = `Inc` then `Allowed`       ↦ `limiter`
 
 A *level* is one `quota` object: one per (quota id, group value).  Its state is the window start
@@ -105,6 +106,15 @@ def allowedLevel (l : Lvl) (r : Rid) : Lvl × Bool :=
 def decLevel (l : Lvl) (r : Rid) : Lvl :=
   { l with memo := l.memo.filter (fun e => e.1 != r) }
 
+/-- `quota.refund`: give back the count `Inc` took for `r`, if it is still pending (memo entry `true`):
+    the entry becomes `false`, the stored counter and the shown value go down by one. -/
+def refundLevel (l : Lvl) (r : Rid) : Lvl × Bool :=
+  match l.memo.lookup r with
+  | some true =>
+    ({ l with counter := l.counter - 1, memo := (r, false) :: l.memo.filter (fun e => e.1 != r),
+              shown := l.shown - 1 }, true)
+  | _ => (l, false)
+
 /-! ### State of all levels, API calls as the code composes them -/
 
 /-- Finite map from level keys to values with a default (the Go maps `quotaGroups` / the shared
@@ -124,17 +134,21 @@ def St.init : St := []
 /-- The level `k` (a level never touched is in its initial state). -/
 def St.at (st : St) (k : Key) : Lvl := KMap.get Lvl.init st k
 
-/-- `fixedWindow.Inc`: the parent is incremented only when the child answered `increased`;
-    the parent's own answer is ignored. -/
-def incChain (st : St) : List (QId × QuotaCfg) → Rid → Nat → Hdrs → St
-  | [], _, _, _ => st
+/-- `fixedWindow.incChain`: the parent is incremented only when the child answered `increased`; when
+    the walk further up answers `blocked`, the count taken at this level is given back and `blocked`
+    is passed down.  The answer for an empty chain is `increased` (nothing above objects). -/
+def incChain (st : St) : List (QId × QuotaCfg) → Rid → Nat → Hdrs → St × IncRes
+  | [], _, _, _ => (st, .increased)
   | (a, c) :: rest, r, t, h =>
     let k := (a, groupOf c h)
-    let (l', res) := incLevel c.max c.win (st.at k) r t
-    let st' := st.set k l'
-    match res with
-    | .increased => incChain st' rest r t h
-    | _ => st'
+    let st' := st.set k (incLevel c.max c.win (st.at k) r t).1
+    match (incLevel c.max c.win (st.at k) r t).2 with
+    | .increased =>
+      match (incChain st' rest r t h).2 with
+      | .blocked =>
+        ((incChain st' rest r t h).1.set k (refundLevel ((incChain st' rest r t h).1.at k) r).1, .blocked)
+      | _ => ((incChain st' rest r t h).1, .increased)
+    | res => (st', res)
 
 /-- `fixedWindow.Allowed`: conjunction up the chain, stopping at the first `false`. -/
 def allowedChain (st : St) : List (QId × QuotaCfg) → Rid → Hdrs → St × Bool
@@ -154,7 +168,7 @@ def decChain (st : St) : List (QId × QuotaCfg) → Rid → Hdrs → St
 
 /-- The limiter processor: `Inc` then `Allowed` on the same quota. -/
 def limiter (cfg : Cfg) (st : St) (q : QId) (r : Rid) (t : Nat) (h : Hdrs) : St × Bool :=
-  allowedChain (incChain st (chain cfg q) r t h) (chain cfg q) r h
+  allowedChain (incChain st (chain cfg q) r t h).1 (chain cfg q) r h
 
 /-! ### API-level operations (what the correspondence harness issues, one at a time) -/
 
@@ -172,7 +186,7 @@ deriving Repr, DecidableEq
 /-- Answer of an API call: `none` for calls that return nothing (`Inc`, `Dec`). -/
 def apiStep (cfg : Cfg) (st : St) (o : Op) : St × Option Bool :=
   match o.kind with
-  | .inc => (incChain st (chain cfg o.q) o.r o.t o.h, none)
+  | .inc => ((incChain st (chain cfg o.q) o.r o.t o.h).1, none)
   | .allowed => ((allowedChain st (chain cfg o.q) o.r o.h).1, some (allowedChain st (chain cfg o.q) o.r o.h).2)
   | .dec => (decChain st (chain cfg o.q) o.r o.h, none)
   | .req => ((limiter cfg st o.q o.r o.t o.h).1, some (limiter cfg st o.q o.r o.t o.h).2)
@@ -193,11 +207,14 @@ inductive LEv
   | inc (k : Key) (r : Rid) (t : Nat) (res : IncRes)
   | allowed (k : Key) (r : Rid) (b : Bool)
   | dec (k : Key) (r : Rid)
+  | refund (k : Key) (r : Rid) (done : Bool)
   | verdict (tid : Nat) (r : Rid) (q : QId) (b : Bool)
 deriving Repr, DecidableEq
 
 inductive Pc
-  | inc (todo : List (QId × QuotaCfg)) (thenAllowed : Bool)
+  | inc (todo : List (QId × QuotaCfg)) (charged : List (QId × QuotaCfg)) (thenAllowed : Bool)
+      -- walking up; `charged` = the levels that answered `increased` so far, nearest ancestor first
+  | refund (todo : List (QId × QuotaCfg)) (thenAllowed : Bool)   -- unwinding after a `blocked` answer
   | allowed (todo : List (QId × QuotaCfg))
   | dec (todo : List (QId × QuotaCfg))
   | done (verdict : Option Bool)
@@ -226,23 +243,46 @@ def Sys.init (t0 : Nat) : Sys := ⟨St.init, t0, [], []⟩
 
 def spawnPc (cfg : Cfg) (kind : Kind) (q : QId) : Pc :=
   match kind with
-  | .inc => .inc (chain cfg q) false
-  | .req => .inc (chain cfg q) true
+  | .inc => .inc (chain cfg q) [] false
+  | .req => .inc (chain cfg q) [] true
   | .allowed => .allowed (chain cfg q)
   | .dec => .dec (chain cfg q)
+
+/-- Where a thread goes when its `Inc` walk is over. -/
+def afterInc (cfg : Cfg) (q : QId) (thenA : Bool) : Pc :=
+  if thenA then .allowed (chain cfg q) else .done none
+
+/-- Continuation of the `Inc` walk after level `(a, c)` answered `res`. -/
+def incNext (cfg : Cfg) (q : QId) (ac : QId × QuotaCfg) (res : IncRes)
+    (rest charged : List (QId × QuotaCfg)) (thenA : Bool) : Pc :=
+  match res with
+  | .increased => (match rest with
+                  | [] => afterInc cfg q thenA
+                  | _ :: _ => .inc rest (ac :: charged) thenA)
+  | .blocked => (match charged with
+                | [] => afterInc cfg q thenA
+                | _ :: _ => .refund charged thenA)
+  | .already => afterInc cfg q thenA
+
+def refundNext (cfg : Cfg) (q : QId) (rest : List (QId × QuotaCfg)) (thenA : Bool) : Pc :=
+  match rest with
+  | [] => afterInc cfg q thenA
+  | _ :: _ => .refund rest thenA
 
 /-- One atomic step of a thread.  Returns the new level state map, the new pc and the logged events. -/
 def stepThread (cfg : Cfg) (st : St) (now : Nat) (tid : Nat) (th : Thread) : St × Pc × List LEv :=
   match th.pc with
-  | .inc [] thenA =>
-    if thenA then (st, .allowed (chain cfg th.q), []) else (st, .done none, [])
-  | .inc ((a, c) :: rest) thenA =>
+  | .inc [] _ thenA => (st, afterInc cfg th.q thenA, [])
+  | .inc ((a, c) :: rest) charged thenA =>
     let k := (a, groupOf c th.h)
-    let (l', res) := incLevel c.max c.win (st.at k) th.r now
-    let pc' := match res, rest with
-      | .increased, _ :: _ => Pc.inc rest thenA
-      | _, _ => if thenA then Pc.allowed (chain cfg th.q) else Pc.done none
-    (st.set k l', pc', [LEv.inc k th.r now res])
+    (st.set k (incLevel c.max c.win (st.at k) th.r now).1,
+     incNext cfg th.q (a, c) (incLevel c.max c.win (st.at k) th.r now).2 rest charged thenA,
+     [LEv.inc k th.r now (incLevel c.max c.win (st.at k) th.r now).2])
+  | .refund [] thenA => (st, afterInc cfg th.q thenA, [])
+  | .refund ((a, c) :: rest) thenA =>
+    let k := (a, groupOf c th.h)
+    (st.set k (refundLevel (st.at k) th.r).1, refundNext cfg th.q rest thenA,
+     [LEv.refund k th.r (refundLevel (st.at k) th.r).2])
   | .allowed [] => (st, .done none, [])
   | .allowed ((a, c) :: rest) =>
     let k := (a, groupOf c th.h)
